@@ -330,16 +330,33 @@ type FrOfPmTreeHasher = FrOf<PmTreeHasher>;
 
 impl PmTree {
     fn remove_indices(&mut self, indices: &[usize]) -> Result<()> {
+        if indices.iter().any(|&i| i >= self.capacity()) {
+            return Err(Report::msg("index to remove exceeds set size"));
+        }
+        // Positions at or above the number of leaves set are empty already
+        let leaves_set = self.leaves_set();
+        let indices: Vec<usize> = indices.iter().copied().filter(|&i| i < leaves_set).collect();
+        if indices.is_empty() {
+            return Ok(());
+        }
         let start = indices[0];
         let end = indices.last().unwrap() + 1;
 
-        let new_leaves = (start..end).map(|_| PmTreeHasher::default_leaf());
+        // One range write over the span: removed positions are reset, the others keep their value
+        let mut new_leaves = Vec::with_capacity(end - start);
+        for i in start..end {
+            if indices.contains(&i) {
+                new_leaves.push(PmTreeHasher::default_leaf());
+            } else {
+                new_leaves.push(self.tree.get(i)?);
+            }
+        }
 
         self.tree
             .set_range(start, new_leaves)
             .map_err(|e| Report::msg(e.to_string()))?;
 
-        for i in start..end {
+        for i in indices {
             self.cached_leaves_indices[i] = 0
         }
         Ok(())
